@@ -6,7 +6,7 @@ set -u
 REPO=${VERIF_REPO:-/repo}
 VERIF=$(cd "$(dirname "$0")/.." && pwd)
 OUT=$VERIF/out/build
-VARIANT=${VERIF_VARIANT:-default}     # default | small (conf-split=1, conf-spawn=3)
+VARIANT=${VERIF_VARIANT:-default}     # default | small (conf-split=1, conf-spawn=3) | cov (development: block coverage, see tools/coverage.sh)
 mkdir -p "$OUT"
 
 PROGS="qmail-queue qmail-send qmail-clean qmail-start qmail-lspawn qmail-rspawn qmail-local qmail-remote qmail-getpw qmail-newu qmail-newmrh qmail-pw2u qmail-smtpd qmail-qmtpd qmail-qmqpd qmail-pop3d qmail-popup qmail-inject"
@@ -28,8 +28,13 @@ trap 'rm -rf "$SCR"' EXIT
 for f in $FILES; do [ -f "$f" ] && cp --parents "$f" "$SCR/r/"; done
 cd "$SCR/r" || exit 2
 CC1='gcc -O1 -g1 -fPIC -fno-omit-frame-pointer -fsanitize=address,undefined -fno-sanitize-recover=all -fno-common -U_FORTIFY_SOURCE -DNOTQMAIL_VERIF'
+[ "$VARIANT" = cov ] && CC1="$CC1 -fsanitize-coverage=trace-pc"
 sed -i "1s|.*|$CC1|" conf-cc
 sed -i '1s|.*|gcc -fsanitize=address,undefined|' conf-ld
+if [ "$VARIANT" = cov ]; then   # the build's own helper executables need the callback too; the images get it from the simulator
+  echo 'void __sanitizer_cov_trace_pc(void){}' > "$SCR/covstub.c"; gcc -c -o "$SCR/covstub.o" "$SCR/covstub.c" || exit 2
+  sed -i "1s|.*|gcc -fsanitize=address,undefined $SCR/covstub.o|" conf-ld
+fi
 if [ "$VARIANT" = small ]; then sed -i '1s/.*/1/' conf-split; sed -i '1s/.*/3/' conf-spawn; fi
 if ! ASAN_OPTIONS=detect_leaks=0 make -j16 it >"$DIR/build.log" 2>&1; then
   echo "build_repo: make failed, see $DIR/build.log" >&2; tail -20 "$DIR/build.log" >&2; exit 2
